@@ -13,3 +13,16 @@ def plan(tier):
         "assumptions": ["ndJsonDeserialize/TLC evaluate the TLA+ definition Occ faithfully",
                         "patterns are non-empty (documented precondition)"],
     }
+
+
+MANIFEST = {
+    "technique": "TLA+ machines of the five matchers model-checked by TLC against Occ(p,t); traces of the real "
+                 "matchers validated by TLC against the same definition",
+    "text": "TLC exhausts all patterns/texts over 2 symbols up to the (scaled) word size for five matcher machines "
+            "shaped like the code (registers, windows, tables, progress), and every recorded find_all of the real "
+            "matchers (exhaustive small + word-size boundaries + periodic/random over all bytes) must equal the "
+            "specification's Occ(p,t)",
+    "note": "bounded: MC over W=4, |t|<=6/8; implementation side covers |p|<=70, |t|<=300; TLC's evaluator and "
+            "the JSON projection of the harness are trusted",
+    "ref": "sec. 5 C08",
+}
